@@ -208,3 +208,80 @@ Definition run_prog (fuel : nat) (p : prog) (args : list Z) : res (list string) 
 
 Definition show_run (r : res (list string)) : string :=
   match r with Ok l => sep_by " | " l | Err EFuel => "FUEL" | Err _ => "ERR" end.
+
+(* ---------- inlining subroutines the way kirin's Inline does (C04, AggressiveUnroll.inline_heuristic) ----------
+   Inlining pastes the callee's body into the caller.  A `return` at the top level of the callee's body becomes a
+   jump to the code after the call; a `return` nested inside the callee's control flow stays a return - of the
+   CALLER.  [exec_h h] is the semantics of a program in which exactly the callees admitted by the heuristic [h]
+   have been inlined; [nested_ret_free] is the heuristic of bloqade.shuttle.passes.fold.AggressiveUnroll. *)
+Fixpoint ret_free_stmt (s : stmt) : bool :=
+  match s with
+  | SRet => false
+  | SIf _ t e => forallb ret_free_stmt t && forallb ret_free_stmt e
+  | SFor _ _ b => forallb ret_free_stmt b
+  | _ => true
+  end.
+Definition ret_free (l : list stmt) : bool := forallb ret_free_stmt l.
+(* no return inside the control flow of the body; returns written directly in the body are fine *)
+Definition nested_ret_free (body : list stmt) : bool :=
+  forallb (fun s => match s with SRet => true | _ => ret_free_stmt s end) body.
+
+(* the pasted body: a top-level return ends it normally, a return from deeper inside escapes to the caller *)
+Fixpoint exec_pasted (ex : env -> stmt -> result) (e : env) (l : list stmt) : result :=
+  match l with
+  | [] => Ok ([], Normal)
+  | x :: r =>
+      match ex e x with
+      | Ok (ev, Normal) => match exec_pasted ex e r with Ok (ev', fl) => Ok ((ev ++ ev')%list, fl) | Err y => Err y end
+      | Ok (ev, Returned) => match x with SRet => Ok (ev, Normal) | _ => Ok (ev, Returned) end
+      | Err y => Err y
+      end
+  end.
+
+Fixpoint exec_h (h : list stmt -> bool) (fuel : nat) (p : prog) (e : env) (s : stmt) {struct fuel} : result :=
+  match fuel with
+  | O => Err EFuel
+  | S f =>
+      match s with
+      | SCall d pos kw => match call_label p e d pos kw with Ok l => Ok (["play " ++ l], Normal) | Err x => Err x end
+      | SBlock body =>
+          match block_members p e (BBlock body) with
+          | Ok ms => Ok (["play parallel{" ++ sep_by ";" ms ++ "}"], Normal)
+          | Err x => Err x
+          end
+      | SOther t => Ok ([t], Normal)
+      | SIf c t el =>
+          match ieval e c with
+          | Ok z => exec_list (exec_h h f p) e (if Z.eqb z 0 then el else t)
+          | Err x => Err x
+          end
+      | SFor x count body =>
+          match ieval e count with
+          | Err r => Err r
+          | Ok n => exec_loop (fun i => exec_list (exec_h h f p) ((x, i) :: e) body) (Z.to_nat n) 0%Z
+          end
+      | SSub name args =>
+          match lookup_s name (subs p) with
+          | None => Err EKey
+          | Some sb =>
+              match bind_params e (sub_params sb) args with
+              | Err x => Err x
+              | Ok en =>
+                  if h (sub_body sb)
+                  then exec_pasted (exec_h h f p) en (sub_body sb)                      (* inlined *)
+                  else match exec_list (exec_h h f p) en (sub_body sb) with              (* a real call *)
+                       | Ok (ev, _) => Ok (ev, Normal)
+                       | Err x => Err x
+                       end
+              end
+          end
+      | SRet => Ok ([], Returned)
+      end
+  end.
+
+Definition run_prog_h (h : list stmt -> bool) (fuel : nat) (p : prog) (args : list Z) : res (list string) :=
+  if negb (Nat.eqb (length args) (length (main_params p))) then Err EValue else
+  match exec_h h fuel p (combine (main_params p) args) (SIf (ILit 1) (main_body p) []) with
+  | Ok (ev, _) => Ok ev
+  | Err x => Err x
+  end.
